@@ -327,8 +327,8 @@ fn do_rop(comp: &CF, op: ROp) -> Vec<String> {
 }
 
 struct Handles {
-    s1: cfb::Stream<MemFile>,
-    s2: cfb::Stream<MemFile>,
+    s1: ops::NoDropOnPanic<cfb::Stream<MemFile>>,
+    s2: ops::NoDropOnPanic<cfb::Stream<MemFile>>,
 }
 
 /// Executes one writer op as a sequence of primitive handle calls (each a
@@ -416,7 +416,7 @@ pub fn run_schedule(case: &SchedCase, image: &[u8], prefix: &[usize]) -> Exec {
     let sched = Arc::new(Sched::new(n, case.policy, prefix.to_vec()));
     let mem = MemFile::new(image.to_vec());
     let mut comp: CF = cfb::OpenOptions::new().max_buffer_size(1024).open_with(mem).expect("open base image");
-    let mut handles = Handles { s1: comp.open_stream("/s1").expect("s1"), s2: comp.open_stream("/s2").expect("s2") };
+    let mut handles = Handles { s1: ops::NoDropOnPanic::new(comp.open_stream("/s1").expect("s1")), s2: ops::NoDropOnPanic::new(comp.open_stream("/s2").expect("s2")) };
     let wdone = AtomicUsize::new(0); // completed writer ops
     let wbusy = AtomicUsize::new(0); // 1 while a writer op is in progress
     let mut exec = Exec { trace: Vec::new(), deadlock: None, diverged: None, panics: Vec::new(), reader_results: vec![Vec::new(); case.readers.len()], writer_results: Vec::new(), steps: 0 };
@@ -501,7 +501,7 @@ pub fn run_schedule(case: &SchedCase, image: &[u8], prefix: &[usize]) -> Exec {
 pub fn sequential_reference(case: &SchedCase, image: &[u8]) -> (Vec<std::collections::BTreeMap<String, Vec<String>>>, Vec<String>) {
     let mem = MemFile::new(image.to_vec());
     let mut comp: CF = cfb::OpenOptions::new().max_buffer_size(1024).open_with(mem).expect("open base image");
-    let mut handles = Handles { s1: comp.open_stream("/s1").expect("s1"), s2: comp.open_stream("/s2").expect("s2") };
+    let mut handles = Handles { s1: ops::NoDropOnPanic::new(comp.open_stream("/s1").expect("s1")), s2: ops::NoDropOnPanic::new(comp.open_stream("/s2").expect("s2")) };
     let mut table = Vec::new();
     let mut wres = Vec::new();
     let snapshot = |comp: &CF| {
